@@ -20,6 +20,7 @@ import (
 
 type vecObj interface {
 	Get(string) (string, error)
+	Set(string, string) error
 	Vector() string
 }
 
@@ -247,6 +248,23 @@ func evalOne(str string, preds SPred, stats *SS) []evalIssue {
 						break
 					}
 				}
+				// what a parsed vector means must not depend on what was done to an earlier result of the same
+				// (or an equal) string: edit the first result, parse again, read again
+				m0 := ver.Metrics[0]
+				mL := ver.Metrics[len(ver.Metrics)-1]
+				obj.Set(m0.Abv, m0.Values[(int(want[0])+1)%len(m0.Values)])
+				obj.Set(mL.Abv, mL.Values[(int(want[len(want)-1])+1)%len(mL.Values)])
+				if o2, e2 := p.parse(str); e2 != nil || o2 == nil {
+					issues = append(issues, evalIssue{"v" + ver.Name + "/parsed-meaning/second-parse-rejected", "accepted again", fmt.Sprint(e2)})
+				} else {
+					for _, mi := range []int{0, len(ver.Metrics) - 1} {
+						m := ver.Metrics[mi]
+						if got, _ := o2.Get(m.Abv); got != m.Values[want[mi]] {
+							issues = append(issues, evalIssue{"v" + ver.Name + "/parsed-meaning/aliases-earlier-result", fmt.Sprintf("Get(%q)=%q on a fresh parse", m.Abv, m.Values[want[mi]]), fmt.Sprintf("%q after Set on the result of an earlier parse of the same string", got)})
+							break
+						}
+					}
+				}
 			}
 			if preds&SCanon != 0 {
 				canon := ver.Canon(want)
@@ -262,8 +280,36 @@ func evalOne(str string, preds SPred, stats *SS) []evalIssue {
 						issues = append(issues, evalIssue{"v" + ver.Name + "/Vector/returned-string-changed-later", keep, strings.Clone(raw)})
 					}
 				}
-				if got != canon {
+				// serialisation must not depend on what was serialised just before: prime with every one-metric
+				// neighbour of the object (memo / cache keyed by a lossy digest of the object)
+				if got == canon {
+					nb := want.Clone()
+					for mi, m := range ver.Metrics {
+						alts := 1
+						if mi == len(ver.Metrics)-1 {
+							alts = len(m.Values) - 1
+						}
+						for k := 1; k <= alts; k++ {
+							nb[mi] = int8((int(want[mi]) + k) % len(m.Values))
+							if no, nerr := p.parse(ver.Canon(nb)); nerr == nil && no != nil {
+								Safely(func() { _ = no.Vector() })
+								if g2 := safeVector(obj); g2 != canon {
+									got = g2
+									issues = append(issues, evalIssue{"v" + ver.Name + "/canonical-form/depends-on-previous-Vector-call", canon, g2 + " right after serialising " + ver.Canon(nb)})
+									break
+								}
+							}
+						}
+						nb[mi] = want[mi]
+						if got != canon {
+							break
+						}
+					}
+				} else {
 					issues = append(issues, evalIssue{"v" + ver.Name + "/canonical-form", canon, got})
+				}
+				if got != canon {
+					// already reported
 				} else if canon != str {
 					// idempotence: parse-then-serialise applied to the canonical string gives itself
 					o2, e2 := p.parse(canon)
